@@ -19,6 +19,12 @@ open AGV AGV.C12 AGV.Loader
 #print axioms load_error_sound
 #print axioms rewriters_error_sound
 #print axioms docRewriterScope_accepted
+#print axioms mem_info_definedVars_iff
+#print axioms mem_info_capturedVars_iff
+#print axioms docRewriterOuterTransform_T
+#print axioms rewriter_fix_outer_transform_rejected
+#print axioms rewriter_fix_outer_transform_inconsistent
+#print axioms rewriter_fix_outer_transform_pinned_accepted
 #print axioms deserRule_ok_iff
 #print axioms withUtils_ok_iff
 #print axioms transformDeserialize_ok_iff
